@@ -342,3 +342,57 @@ func (m *Model) reaches(from, to *ssa.Function, in map[*ssa.Function]bool) bool 
 	}
 	return walk(from)
 }
+
+// RunNoUserMethods — R-USERCODE (C09, C12): the conversion of the caller's data looks at the data through the type
+// switch and through reflect only; it never calls a method of a data value. A method of the caller's type is the
+// caller's code: `String()` through fmt.Stringer on a typed nil pointer panics before the nil-pointer case is reached,
+// and a struct or map that happens to have such a method would turn into a flat text, its fields and keys gone. In the
+// object-package functions reachable from NativeToObject there is no interface method call on an interface that is not
+// declared in this module, and no reflect.Value.Method / MethodByName / Call.
+func (m *Model) RunNoUserMethods(s *Sink, rule string) {
+	nto := m.PkgFunc("object", "NativeToObject")
+	if nto == nil {
+		s.Undecided(rule, "object.NativeToObject", "-", "not found")
+		return
+	}
+	n, nf := 0, 0
+	for _, f := range m.reachableFns([]*ssa.Function{nto}) {
+		if shortPkg(fnPkgPath(f)) != "object" {
+			continue
+		}
+		nf++
+		for _, b := range f.Blocks {
+			for _, in := range b.Instrs {
+				c, ok := in.(ssa.CallInstruction)
+				if !ok {
+					continue
+				}
+				com := c.Common()
+				what := ""
+				if com.IsInvoke() {
+					if !strings.HasPrefix(pkgOfType(com.Value.Type()), modPath) {
+						if nt, isN := com.Value.Type().(*types.Named); !isN || nt.Obj().Pkg() == nil || nt.Obj().Pkg().Path() != "reflect" {
+							what = fmt.Sprintf("calls the method %s of a data value through the interface %s", com.Method.Name(), types.TypeString(com.Value.Type(), nil))
+						}
+					}
+				} else if sc := com.StaticCallee(); sc != nil {
+					switch fnFullName(sc) {
+					case "(reflect.Value).Method", "(reflect.Value).MethodByName", "(reflect.Value).Call", "(reflect.Value).CallSlice":
+						what = "reaches a method of a data value through " + fnFullName(sc)
+					}
+				}
+				if what == "" {
+					continue
+				}
+				n++
+				s.Violation(rule, fnKey(f)+"|data is converted by its structure, not by its methods", m.InstrPos(in), "%s %s: a method of the caller's type is the caller's code — called on a typed nil pointer it panics before the nil case is reached, and a struct, map or pointer that has such a method is no longer visible by its fields and keys", fnKey(f), what)
+			}
+		}
+	}
+	if n == 0 {
+		s.OK(rule, "object.NativeToObject|data is converted by its structure, not by its methods", m.Pos(nto.Pos()), "no interface method call on a non-module interface and no reflect method call in the %d conversion functions", nf)
+	}
+	if nf < 3 {
+		s.Undecided(rule, "conversion functions", "-", "only %d object-package functions reachable from NativeToObject (expected at least 3)", nf)
+	}
+}
